@@ -139,6 +139,70 @@ func genGoCopy(repo string) (string, error) {
 		return "", fmt.Errorf("shape not recognised: registers.go has no vm.regs.X[vm.fp[i]+…] access")
 	}
 
+	// where a received value and its ok flag are stored: the OpReceive, OpSelect clauses and the
+	// channel case of OpRange
+	type rs struct{ op, ctx, text string }
+	var recvStores []rs
+	loader := &swLoader{fset: fset}
+	for _, op := range []string{"OpReceive", "OpSelect", "OpRange"} {
+		var clause *ast.CaseClause
+		ast.Inspect(run.Body, func(n ast.Node) bool {
+			if cc, ok := n.(*ast.CaseClause); ok && clause == nil {
+				for _, e := range cc.List {
+					if swText(fset, e) == op {
+						clause = cc
+					}
+				}
+			}
+			return clause == nil
+		})
+		if clause == nil {
+			return "", fmt.Errorf("shape not recognised: run has no `case %s:` clause", op)
+		}
+		var root ast.Node = clause
+		if op == "OpRange" { // only the `case reflect.Chan:` clause inside
+			root = nil
+			ast.Inspect(clause, func(n ast.Node) bool {
+				if cc, ok := n.(*ast.CaseClause); ok && len(cc.List) == 1 && swText(fset, cc.List[0]) == "reflect.Chan" {
+					root = cc
+				}
+				return root == nil
+			})
+			if root == nil {
+				return "", fmt.Errorf("shape not recognised: OpRange has no `case reflect.Chan:` clause")
+			}
+		}
+		var stack []ast.Node
+		n0 := len(recvStores)
+		ast.Inspect(root, func(n ast.Node) bool {
+			if n == nil {
+				stack = stack[:len(stack)-1]
+				return true
+			}
+			stack = append(stack, n)
+			var text string
+			switch x := n.(type) {
+			case *ast.ExprStmt:
+				if t := swText(fset, x); strings.HasPrefix(t, "vm.setFromReflectValue(") || strings.HasPrefix(t, "vm.setBool(") {
+					text = t
+				}
+			case *ast.AssignStmt:
+				for _, l := range x.Lhs {
+					if swText(fset, l) == "vm.ok" {
+						text = swText(fset, x)
+					}
+				}
+			}
+			if text != "" {
+				recvStores = append(recvStores, rs{op, swCondCtx(loader, stack), text})
+			}
+			return true
+		})
+		if len(recvStores) == n0 {
+			return "", fmt.Errorf("shape not recognised: %s stores no received value", op)
+		}
+	}
+
 	var b strings.Builder
 	b.WriteString("namespace ScriggoV.Gen.GoCopy\n\n")
 	b.WriteString("/-- a `copy(nvm.regs.dst, vm.regs.src[vm.fp[fp]+Addr(off.field) : … vm.fp[hiFp] … vm.st[hiSt] …])` of startGoroutine -/\nstructure Copy where\n  dst : String\n  src : String\n  fp : Nat\n  field : String\n  hiFp : String\n  hiSt : String\nderiving DecidableEq, Repr\n\n")
@@ -163,6 +227,13 @@ func genGoCopy(repo string) (string, error) {
 		}
 		f := strings.Fields(p)
 		fmt.Fprintf(&b, "(%s, %s)", swLeanStr(f[0]), f[1])
+	}
+	b.WriteString("]\n\n/-- where a received value and the ok flag are stored (OpReceive, OpSelect, the channel case of OpRange): instruction, the if-conditions the statement is under inside the clause, the statement -/\ndef recvStores : List (String × String × String) := [")
+	for i, r := range recvStores {
+		if i > 0 {
+			b.WriteString(",")
+		}
+		fmt.Fprintf(&b, "\n  (%s, %s, %s)", swLeanStr(r.op), swLeanStr(r.ctx), swLeanStr(r.text))
 	}
 	b.WriteString("]\n\nend ScriggoV.Gen.GoCopy\n")
 	return b.String(), nil
